@@ -492,10 +492,20 @@ def _setdiff_pattern(t):
     return None
 
 
+def _argwhere_flat(t):
+    """np.concatenate(np.argwhere(m)) for a rank-1 mask m is np.flatnonzero(m)"""
+    if isinstance(t, Term) and t.op == "stack" and len(t.args) == 2 and isinstance(t.args[0], Term) and t.args[0].op == "const" and t.args[0].args[0] == 0 and isinstance(t.args[1], Term) and t.args[1].op == "argwhere" and len(t.args[1].args) == 2 and t.args[1].args[1] == ("rank", Term("const", Fraction(1))):
+        return Term("nonzero1", t.args[1].args[0])
+    return t
+
+
 def _canon_idx_term(idx):
     """index terms modulo: flatnonzero(mask) used as an index == the mask; trailing full slices"""
     if not isinstance(idx, Term):
         return idx
+    idx = _argwhere_flat(idx)
+    if idx.op == "tuple":
+        idx = Term("tuple", *[_argwhere_flat(z) for z in idx.args])
     if idx.op == "nonzero1":
         return _setdiff_pattern(idx) or idx.args[0]
     if idx.op == "tuple":
